@@ -8,6 +8,8 @@
 (*   msg            text of an exception, if any.                          *)
 (* A line with a field `asks` is a history recorded from ONE set of objects *)
 (* driven through the real Solver.solve() (see TimeStep.tla, HISTORIES).    *)
+(* A line with a field `steps` is a run of the real Solver.solve() with a    *)
+(* scripted integrator (see TimeStep.tla, RUNS).                            *)
 (* For every trace the property layer of TimeStep.tla is evaluated on the  *)
 (* recorded results (Verdict: failed clauses; whether the failure is       *)
 (* explained by findings of status "known" and by which) and, for drift    *)
@@ -40,7 +42,14 @@ TVerdict(x) ==
 \* first failing ask (0: none)
 THistory(x) == [v |-> HVerdict(x), mech |-> HMechSame(x)]
 
-TAny(x) == IF "asks" \in DOMAIN x THEN THistory(x) ELSE TVerdict(x)
+\* a run (a line with `steps`): the real Solver.solve() with a scripted
+\* integrator; every integrator.step(t, dt) is judged against the state in
+\* force at that moment; `step` is the first failing step (0: none)
+TRun(x) == [v |-> RVerdict(x), mech |-> RMechSame(x)]
+
+TAny(x) == IF "asks" \in DOMAIN x THEN THistory(x)
+           ELSE IF "steps" \in DOMAIN x THEN TRun(x)
+           ELSE TVerdict(x)
 
 TInit == tid \in 1 .. Len(Traces) /\ TLCSet(tid, TAny(Traces[tid]))
 TNext == FALSE /\ tid' = tid
